@@ -689,7 +689,7 @@ func (la *LockAudit) propagate() {
 							if !isFA {
 								break
 							}
-							if fv := fieldVar(fa.X.Type(), fa.Field); fv == nil || !fv.Embedded() {
+							if fv := fieldVar(fa.X.Type(), fa.Field); fv == nil || !(fv.Embedded() || groupField[fv]) {
 								break
 							}
 							arg = frameResolve(RV{arg.F, fa.X})
